@@ -37,6 +37,7 @@ fn main() {
         "guardden" => exprs::run_guardden(tier, seed, &mut out),
         "entnames" => lit::run_entnames(&mut out),
         "links" => path::run_links(tier, seed, &mut out),
+        "entscan" => lit::run_entscan(tier, seed, &mut out),
         "determinism" => determinism::run(tier, seed, &mut out),
         "exprgen" => exprs::run_gen(tier, seed, &mut out),
         "exprval" => exprs::run_val(tier, seed, &mut out),
